@@ -48,6 +48,7 @@ type c15Case struct {
 	KeepAlive int        `json:"keep_alive"`
 	LoadUs    int        `json:"load_us"`
 	FailEvery int        `json:"fail_every,omitempty"` // every n-th runner fails to load (the process dies while loading); 0 = none
+	Perturb   uint32     `json:"perturb,omitempty"`    // 0 = off; otherwise yields / short real pauses at the instrumented lock and channel operations of sched.go and routes.go
 	Clients   [][]c15Req `json:"clients"`
 }
 
@@ -64,6 +65,9 @@ func c15Gen(t *rapid.T) c15Case {
 	c.KeepAlive = rapid.IntRange(0, len(c15KeepEv)-1).Draw(t, "keep_alive")
 	c.LoadUs = rapid.SampledFrom([]int{0, 100, 1000, 3000}).Draw(t, "load_us")
 	c.FailEvery = rapid.SampledFrom([]int{0, 0, 2, 3, 5}).Draw(t, "fail_every")
+	if rapid.IntRange(0, 2).Draw(t, "perturbed") > 0 {
+		c.Perturb = rapid.Uint32Range(1, 1<<30).Draw(t, "perturb")
+	}
 	nc := rapid.IntRange(3, 10).Draw(t, "clients")
 	for i := 0; i < nc; i++ {
 		n := rapid.IntRange(3, 20).Draw(t, "n_req")
@@ -85,6 +89,35 @@ func c15Gen(t *rapid.T) c15Case {
 		c.Clients = append(c.Clients, rs)
 	}
 	return c
+}
+
+// The driver overlays copies of sched.go and routes.go with a verifYield call in front of every stand-alone lock statement
+// and channel operation (CHECK key yield_points). In this real-time check the hook stretches those windows as a function of
+// the case's perturbation seed and the call's ordinal: which goroutine gets there first still is the Go scheduler's choice.
+var (
+	c15PerturbSeed  atomic.Uint32
+	c15PerturbCalls atomic.Uint32
+)
+
+func init() { verifYield = c15Yield }
+
+func c15Yield(where string) {
+	seed := c15PerturbSeed.Load()
+	if seed == 0 {
+		return
+	}
+	h := seed*2654435761 + c15PerturbCalls.Add(1)*40503
+	for _, b := range []byte(where) {
+		h = (h ^ uint32(b)) * 16777619
+	}
+	switch h >> 28 {
+	case 0:
+		time.Sleep(time.Duration(20+h%180) * time.Microsecond)
+	case 1, 2, 3, 4:
+		for i := uint32(0); i < 1+h%4; i++ {
+			runtime.Gosched()
+		}
+	}
 }
 
 // c15Runner is the fake runner process. Events (birth, close, ps start/end) are stamped with one atomic counter.
@@ -190,6 +223,8 @@ func c15Run(c c15Case) (classes []string, nontrivial bool, err error) {
 	} else {
 		os.Unsetenv("OLLAMA_KEEP_ALIVE")
 	}
+	c15PerturbSeed.Store(c.Perturb)
+	defer c15PerturbSeed.Store(0)
 	w := &c15World{loadUs: c.LoadUs, failN: c.FailEvery}
 	ctx, cancel := context.WithCancel(context.Background())
 	defer cancel()
@@ -528,7 +563,7 @@ func c15RaceSig(report string) string {
 					if len(loc) > 0 {
 						if j := strings.LastIndexByte(loc[0], ':'); j > 0 {
 							n, _ := strconv.Atoi(loc[0][j+1:])
-							if src, err := os.ReadFile(loc[0][:j]); err == nil && n > 0 {
+							if src, err := os.ReadFile(c15SourceOf(loc[0][:j])); err == nil && n > 0 {
 								if sl := strings.Split(string(src), "\n"); n <= len(sl) {
 									for _, m := range c15FieldRe.FindAllStringSubmatch(sl[n-1], -1) {
 										fields[m[1]] = true
@@ -554,6 +589,21 @@ func c15RaceSig(report string) string {
 	}
 	sort.Strings(tops)
 	return strings.Join(tops, " <-> ") + " {" + strings.Join(common, ",") + "}"
+}
+
+// c15SourceOf: the file a reported line number refers to. sched.go and routes.go are compiled from instrumented copies
+// (yield_points): the report names the original path, the line is a line of the copy (VERIF_YIELD_FILES, set by the driver).
+var c15YieldFiles = sync.OnceValue(func() map[string]string {
+	m := map[string]string{}
+	json.Unmarshal([]byte(os.Getenv("VERIF_YIELD_FILES")), &m)
+	return m
+})
+
+func c15SourceOf(path string) string {
+	if p, ok := c15YieldFiles()[path]; ok {
+		return p
+	}
+	return path
 }
 
 // c15RaceIsKnown: the function pair is one of the listed finding's and the field both lines mention is one of its fields.
